@@ -676,6 +676,55 @@ example (us : Units) (n m : Nat) : MemoSem us [exGps, exUtc] n m exW { heap := [
   ⟨by intro k v h; simp at h, HeapExt.refl _, by intro it _ _ o _ v h; simp [St.find] at h,
    by intro it _ _ o _ o' _ v v' h; simp [St.find] at h⟩
 
+
+def exT0 : Obj := { kind := .time, ndim := 1, cols := 1, tag := "utc/mjd", rows := [[.num 2451544.5, .num 0, .num 51544], [.num 2451545.5, .num 0, .num 51545]] }
+def exT1 : Obj := { kind := .time, ndim := 1, cols := 1, tag := "utc/mjd", rows := [[.num 2451546.5, .num 0, .num 51546]] }
+def exDS : DS := { numObs := 2, fields := [.leaf "sent" .time 0 2 none 3, .leaf "received" .time 0 2 none 3] }
+def exES : DS := { numObs := 1, fields := [.leaf "sent" .time 1 1 none 3, .leaf "received" .time 1 1 none 3] }
+
+/-- (for the example below) the only unit of work of `exDS`, `exES` -/
+theorem flat_example_items : ∀ it, itemsOf exDS.fields exES.fields it → it = .both .time 0 none 1 none := by
+  intro it hit
+  rcases hit with ⟨nm, k, a, no, u, l, nm2, b, no2, u2, l2, h1, h2, _, rfl⟩ | ⟨nm, k, a, no, u, l, h1, h2, rfl⟩ |
+    ⟨nm, k, b, no, u, l, h1, h2, rfl⟩
+  · simp [exDS, exES] at h1 h2
+    rcases h1 with ⟨_, rfl, rfl, _, rfl, _⟩ | ⟨_, rfl, rfl, _, rfl, _⟩ <;>
+      rcases h2 with ⟨_, _, rfl, _, rfl, _⟩ | ⟨_, _, rfl, _, rfl, _⟩ <;> rfl
+  · simp [exDS, exES, names] at h1 h2
+    rcases h1 with ⟨rfl, _⟩ | ⟨rfl, _⟩
+    · exact absurd rfl h2.1
+    · exact absurd rfl h2.2
+  · simp [exDS, exES, names] at h1 h2
+    rcases h1 with ⟨rfl, _⟩ | ⟨rfl, _⟩
+    · exact absurd rfl h2.1
+    · exact absurd rfl h2.2
+
+/-- the hypotheses of `extend_refines_records_flat_partial` / `extend_keeps_sharing_flat_partial` are satisfiable, with
+sharing: `sent` and `received` are ONE array in self (object 0) and ONE array in other (object 1) -/
+example : ∃ h' d', dsExtend {} [exT0, exT1] exDS exES = .ok (h', d') ∧ exDS.numObs ≠ 0 ∧
+    (∀ f ∈ exDS.fields, FlatLeaf [exT0, exT1] exDS.numObs f) ∧ (∀ g ∈ exES.fields, FlatLeaf [exT0, exT1] exES.numObs g) ∧
+    (∀ f ∈ exDS.fields, KindsOK [exT0, exT1] f) ∧ (∀ g ∈ exES.fields, KindsOK [exT0, exT1] g) ∧
+    (names exDS.fields).Nodup ∧ (names exES.fields).Nodup ∧
+    Consistent {} [exT0, exT1] exDS.numObs exES.numObs (itemsOf exDS.fields exES.fields) ∧
+    ObjsAgree (itemsOf exDS.fields exES.fields) := by
+  refine ⟨_, _, rfl, by decide, ?_, ?_, ?_, ?_, by decide, by decide, ?_, ?_⟩
+  · intro f hf
+    simp [exDS] at hf
+    rcases hf with rfl | rfl <;> exact ⟨_, _, _, _, _, _, exT0, rfl, rfl, rfl, rfl, rfl⟩
+  · intro f hf
+    simp [exES] at hf
+    rcases hf with rfl | rfl <;> exact ⟨_, _, _, _, _, _, exT1, rfl, rfl, rfl, rfl, rfl⟩
+  · intro f hf
+    simp [exDS] at hf
+    rcases hf with rfl | rfl <;> exact ⟨exT0, rfl, rfl⟩
+  · intro f hf
+    simp [exES] at hf
+    rcases hf with rfl | rfl <;> exact ⟨exT1, rfl, rfl⟩
+  · intro i j hi hj _ _ _
+    rw [flat_example_items i hi, flat_example_items j hj]
+  · intro i j hi hj _ _ _ x
+    rw [flat_example_items i hi, flat_example_items j hj]
+
 /-- does the history run? (executable) -/
 def runs : W → List Op → Bool
   | _, [] => true
@@ -732,6 +781,7 @@ end Midgard.Props.C09
 #print axioms Midgard.Props.C09.pad_leaf_under_invariant
 #print axioms Midgard.Props.C09.extend_refines_records_flat_partial
 #print axioms Midgard.Props.C09.extend_keeps_sharing_flat_partial
+#print axioms Midgard.Props.C09.flat_example_items
 #print axioms Midgard.Props.C09.extend_float_converts_units
 #print axioms Midgard.Props.C09.sort_is_stable_permutation
 #print axioms Midgard.Props.C09.sort_refines
